@@ -103,6 +103,12 @@ def _members(shape, tier, seed):
     for R, w in kr:
         out.append({"fam": "kruskal", "h": {"kind": "ktensor", "shape": sh, "rank": R, "weights": w,
                                             "salt": seed, "vseed": seed}})
+    # factor-column structure of the native members (what cp_als / hosvd / tucker_als hand out): raw integer columns
+    # (above), unit 2-norm but correlated columns, orthonormal columns, and a per-mode mixture of the three
+    for R, w in (kr[1:] if thorough else kr[1:2]):
+        for fn in FNORMS[:2]:
+            out.append({"fam": "kruskal", "h": {"kind": "ktensor", "shape": sh, "rank": R, "weights": w,
+                                                "salt": seed, "vseed": seed, "fnorm": fn}})
     cores = [[min(2, s) for s in shape]]
     if thorough:
         cores += [[1] * N, [min(3, s) for s in shape], [2] * N]
@@ -111,13 +117,60 @@ def _members(shape, tier, seed):
         if cs in seen:
             continue
         seen.append(cs)
-        out.append({"fam": "tucker", "h": {"kind": "ttensor", "shape": sh, "core_shape": cs, "core": "dense",
-                                           "core_pat": None, "salt": seed, "vseed": seed}})
         nc = prod(cs)
-        out.append({"fam": "tucker", "h": {"kind": "ttensor", "shape": sh, "core_shape": cs, "core": "sparse",
-                                           "core_pat": [1 if i % 2 == 0 else 0 for i in range(nc)],
-                                           "salt": seed + 1, "vseed": seed}})
+        for fn in (None,) + FNORMS:
+            extra = {"fnorm": fn} if fn else {}
+            out.append({"fam": "tucker", "h": dict({"kind": "ttensor", "shape": sh, "core_shape": cs, "core": "dense",
+                                                    "core_pat": None, "salt": seed, "vseed": seed}, **extra)})
+            out.append({"fam": "tucker", "h": dict({"kind": "ttensor", "shape": sh, "core_shape": cs,
+                                                    "core": "sparse",
+                                                    "core_pat": [1 if i % 2 == 0 else 0 for i in range(nc)],
+                                                    "salt": seed + 1, "vseed": seed}, **extra)})
     return out
+
+
+# factor-column structures of native Kruskal / Tucker members (descriptor key "fnorm"; absent = raw integer columns)
+FNORMS = ("unit", "orth", "mixed")
+
+
+def _norm_factor(f, how):
+    """Reference-side re-scaling of one factor matrix: 'unit' = every column divided by its 2-norm (columns stay
+    correlated), 'orth' = an orthonormal basis of the column space (Householder QR; needs rows >= columns, else 'unit')."""
+    f = np.array(f, dtype=float)
+    if how == "orth" and f.shape[0] >= f.shape[1]:
+        return np.linalg.qr(f)[0]
+    if how in ("unit", "orth"):
+        nrm = np.sqrt(np.sum(f * f, axis=0))
+        return f / np.where(nrm > 0, nrm, 1.0)
+    return f
+
+
+def native_parts(h):
+    """Parts of a native member with its factor-column structure applied: ('ktensor', weights, factors) or
+    ('ttensor', core_shape, core_values, factors)."""
+    fn = h.get("fnorm")
+    hows = lambda k: (("orth", "unit", "raw")[k % 3] if fn == "mixed" else (fn or "raw"))  # noqa: E731
+    if h["kind"] == "ktensor":
+        w, fs = H.ktensor_parts(h)
+        return "ktensor", w, [_norm_factor(f, hows(k)) for k, f in enumerate(fs)]
+    cs, cvals, fs = H.ttensor_parts(h)
+    return "ttensor", cs, cvals, [_norm_factor(f, hows(k)) for k, f in enumerate(fs)]
+
+
+def build_native(h):
+    import pyttb as ttb
+
+    if not h.get("fnorm"):
+        return H.build(h)
+    parts = native_parts(h)
+    if parts[0] == "ktensor":
+        return ttb.ktensor([np.asfortranarray(f) for f in parts[2]], np.array(parts[1], dtype=float))
+    _, cs, cvals, fs = parts
+    if h.get("core", "dense") == "sparse":
+        core = H.make_sptensor(cs, *H.sp_parts(cs, cvals))
+    else:
+        core = ttb.tensor(np.asfortranarray(rm.arr(cs, cvals)))
+    return ttb.ttensor(core, [np.asfortranarray(f) for f in fs])
 
 
 _MIXED = [2, 5, 1, 4, 3, 6, 7, 8]
@@ -127,6 +180,11 @@ def data_array(d):
     """The integer-valued array a data descriptor denotes (reference side, no pyttb)."""
     fam = d["fam"]
     if fam in ("kruskal", "tucker"):
+        if d["h"].get("fnorm"):
+            parts = native_parts(d["h"])
+            if parts[0] == "ktensor":
+                return np.asarray(rm.kruskal(parts[1], parts[2]), dtype=float)
+            return np.asarray(rm.tucker(rm.arr(parts[1], parts[2]), parts[3]), dtype=float)
         return np.asarray(H.ref_array(d["h"]), dtype=float)
     shape = tuple(d["shape"])
     n = prod(shape)
@@ -200,9 +258,11 @@ def holder_names(d, tier):
     names.append("tensor:F")
     if tier == "thorough":
         names.append("tensor:C")
-    names += ["tensor:int", "sptensor:id", "sptensor:rev", "sptensor:int"]
-    # narrow integer storage: the Gram matrix must not be formed in the storage dtype (it would wrap)
-    names += ["tensor:int8", "sptensor:int8"]
+    integer = not d.get("h", {}).get("fnorm")   # re-scaled factor columns: the array is no longer integer-valued
+    names += (["tensor:int"] if integer else []) + ["sptensor:id", "sptensor:rev"] + (["sptensor:int"] if integer else [])
+    if integer:
+        # narrow integer storage: the Gram matrix must not be formed in the storage dtype (it would wrap)
+        names += ["tensor:int8", "sptensor:int8"]
     if tier == "thorough":
         names += ["sptensor:rot", "sptensor:swap"]
     names += ["ktensor:cells", "ttensor:id_dense", "ttensor:id_sparse", "ttensor:id_spfac"]
@@ -218,12 +278,12 @@ def build_holder(name, d, A):
     kind, how = name.split(":")
     shape = A.shape
     if how == "native":
-        return H.build(d["h"])
+        return build_native(d["h"])
     if how == "native_spfac":
         # the native Tucker tensor with a sparse core and scipy.sparse (coo) factor matrices
         from scipy import sparse
 
-        cs, cvals, fs = H.ttensor_parts(d["h"])
+        _, cs, cvals, fs = native_parts(d["h"])
         csubs, cv = H.sp_parts(cs, cvals)
         return ttb.ttensor(H.make_sptensor(cs, csubs, cv), [sparse.coo_matrix(f) for f in fs])
     vals = [float(v) for v in rm.vals_f(A)]
